@@ -11,6 +11,7 @@ if ! diff -q /tmp/.reftable_check.$$/RefTable.v coq/RefTable.v >/dev/null || ! d
 fi
 rm -rf /tmp/.reftable_check.$$
 python3 tools/gen_src.py /repo coq/gen || true
+python3 tools/gen_mut.py /repo coq/gen || true
 # the harness first: the witness seeds of Properties/C12s.v come from a census of the implementation
 python3 - <<'PY'
 import sys
